@@ -28,16 +28,16 @@ import (
 )
 
 type model struct {
-	Fn      string              `json:"fn"`
-	Params  map[string]int      `json:"params"`
-	Vals    map[string]uint64   `json:"vals"`    // name#k -> value (ints as two's complement, bools 0/1, choices)
-	Bytes   map[string][]uint64 `json:"bytes"`   // name#k -> byte values
-	Ranks   map[string]uint64   `json:"ranks"`   // atom key -> rank of its String() form
-	Expect  []string            `json:"expect"`  // failure signatures the engine predicts (informational)
-	ObsWant []string            `json:"obs"`     // observation stream the engine predicts (informational)
-	Gate    []string            `json:"gate"`    // order in which gated goroutines must proceed (schedule replay)
-	Sync    []syncEvent         `json:"sync"`    // acquire-type operations in scheduler order (steered replay builds only)
-	ByteRanks map[string]uint64 `json:"byte_ranks"` // order of opaque byte strings (public keys) chosen by the solver
+	Fn        string              `json:"fn"`
+	Params    map[string]int      `json:"params"`
+	Vals      map[string]uint64   `json:"vals"`       // name#k -> value (ints as two's complement, bools 0/1, choices)
+	Bytes     map[string][]uint64 `json:"bytes"`      // name#k -> byte values
+	Ranks     map[string]uint64   `json:"ranks"`      // atom key -> rank of its String() form
+	Expect    []string            `json:"expect"`     // failure signatures the engine predicts (informational)
+	ObsWant   []string            `json:"obs"`        // observation stream the engine predicts (informational)
+	Gate      []string            `json:"gate"`       // order in which gated goroutines must proceed (schedule replay)
+	Sync      []syncEvent         `json:"sync"`       // acquire-type operations in scheduler order (steered replay builds only)
+	ByteRanks map[string]uint64   `json:"byte_ranks"` // order of opaque byte strings (public keys) chosen by the solver
 }
 
 var (
@@ -237,9 +237,9 @@ func Assert(prop string, c bool, msg string) {
 
 func Cover(label string) {}
 
-func Observe(key string, v int)       { fmt.Printf("VX-OBS %s=%d\n", key, v) }
-func ObserveS(key string, s string)   { fmt.Printf("VX-OBS %s=%s\n", key, s) }
-func ObserveB(key string, b bool)     { fmt.Printf("VX-OBS %s=%v\n", key, b) }
+func Observe(key string, v int)     { fmt.Printf("VX-OBS %s=%d\n", key, v) }
+func ObserveS(key string, s string) { fmt.Printf("VX-OBS %s=%s\n", key, s) }
+func ObserveB(key string, b bool)   { fmt.Printf("VX-OBS %s=%v\n", key, b) }
 
 // branch-free connectives (one SMT term under the engine)
 func And(a, b bool) bool     { return a && b }
